@@ -1,6 +1,7 @@
 package main
 
 import (
+	"fmt"
 	"go/types"
 	"regexp/syntax"
 	"strconv"
@@ -37,6 +38,39 @@ func registerStrings(e *Engine) {
 	reg("crypto/hmac.Equal", s2(func(in *Interp, a, b *Str) Value { return Sc{in.str.Eq(a, b)} }))
 	reg("crypto/subtle.ConstantTimeCompare", s2(func(in *Interp, a, b *Str) Value {
 		return Sc{in.b.Ite(in.str.Eq(a, b), in.b.BV(1, 64), in.b.BV(0, 64))}
+	}))
+	reg("strings.Count", s2(func(in *Interp, a, p *Str) Value {
+		pc, ok := p.Concrete()
+		if x, ok2 := a.Concrete(); ok && ok2 {
+			return Sc{in.b.BV(uint64(strings.Count(x, pc)), 64)}
+		}
+		if !ok || len(pc) != 1 {
+			in.unsupported("strings.Count with non single-byte constant separator")
+		}
+		return Sc{in.b.ZExt(in.str.CountByte(a, pc[0]), 64)}
+	}))
+	reg("strings.TrimPrefix", s2(func(in *Interp, a, p *Str) Value {
+		if x, ok := a.Concrete(); ok {
+			if y, ok2 := p.Concrete(); ok2 {
+				return in.str.Const(strings.TrimPrefix(x, y))
+			}
+		}
+		pc, ok := p.Concrete()
+		if !ok {
+			in.unsupported("strings.TrimPrefix with symbolic prefix")
+		}
+		has := in.str.HasPrefix(a, p)
+		if has.IsFalse() {
+			return a
+		}
+		ln := in.str.Len(a)
+		lo := in.b.Ite(has, in.b.BV(uint64(len(pc)), 64), in.b.BV(0, 64))
+		return in.str.Slice(a, lo, ln)
+	}))
+	reg("strings.EqualFold", s2(func(in *Interp, a, c *Str) Value {
+		in.assumeASCII(a)
+		in.assumeASCII(c)
+		return Sc{in.str.Eq(in.str.ToLower(a), in.str.ToLower(c))}
 	}))
 	idxByte := func(in *Interp, _ *frame, _ *ssa.Function, args []Value, _ tokenPos) Value {
 		return Sc{in.str.IndexByte(args[0].(*Str), args[1].(Sc).T)}
@@ -538,6 +572,12 @@ func (in *Interp) splitStr(s, sep *Str) Value {
 	}
 	cnt := in.str.CountByte(s, sc[0])
 	maxParts := s.Cap() + 1
+	if lim := in.opts.SplitMax + 1; in.opts.SplitMax > 0 && maxParts > lim {
+		// stated input bound: at most SplitMax separators per split string
+		in.note(fmt.Sprintf("bound: strings.Split inputs contain at most %d separators", in.opts.SplitMax))
+		in.assume(b.ULe(cnt, b.BV(uint64(in.opts.SplitMax), 8)))
+		maxParts = lim
+	}
 	conds := make([]*Term, maxParts)
 	for n := 0; n < maxParts; n++ {
 		conds[n] = b.Eq(cnt, b.BV(uint64(n), 8))
